@@ -26,7 +26,7 @@ func (ex *Exec) globalInit(st *State, g *ssa.Global) Value {
 	if g.Pkg != nil {
 		key = g.Pkg.Pkg.Path() + "." + g.Name()
 	}
-	if snap, ok := ex.Globals[key]; ok {
+	if snap, ok := ex.Globals[key]; ok && !snapIsOpaque(snap) {
 		cache := map[float64]int{}
 		return ex.decodeSnap(st, snap, t, key, cache)
 	}
@@ -37,6 +37,11 @@ func (ex *Exec) globalInit(st *State, g *ssa.Global) Value {
 	}
 	if g.Pkg != nil && ex.lazyInitOK(g.Pkg) {
 		return ex.lazyInit(st, g)
+	}
+	if g.Pkg != nil && !ex.globalInitTried[key] {
+		if fn := findGlobalInitializerCall(g); fn != nil {
+			panic(abortSignal{Kind: "NEEDINIT", Msg: "global:" + key})
+		}
 	}
 	return UninitV{Name: key}
 }
@@ -181,6 +186,7 @@ func (ex *Exec) lookupType(tm map[string]interface{}) types.Type {
 var lazyInitPkgs = map[string]bool{
 	"unicode/utf8": true, "strconv": true, "encoding/binary": true, "math/bits": true, "encoding/hex": true,
 	"errors": true, "strings": true, "bytes": true, "math": true, "unicode": true,
+	"github.com/onflow/fixed-point": true,
 }
 
 func (ex *Exec) lazyInitOK(p *ssa.Package) bool { return lazyInitPkgs[p.Pkg.Path()] }
